@@ -7,7 +7,9 @@ timing: which requests the resource finishes inside `process()` (bit mask `now`)
 are cut into deliveries (`cut`) and a schedule (symbolic List[int]) over {deliver the next chunk,
 finish request i, the transport pauses / resumes the channel, the connection is lost}.  Each
 request's resource writes the first half of its response when it is handed over and the second half
-when it finishes, so interleaving would be visible on the wire.
+when it finishes, so interleaving would be visible on the wire.  The solver also chooses which request
+(if any) is a HEAD: its response must be status line + header section + blank line and nothing
+else before the next response.
 
 Every request has three independent notifyFinish observers (two from the hand-over on, one registered
 just before finish()); the first one's callback returns a non-None value and its errback swallows
@@ -40,7 +42,9 @@ ENCODED = ["twisted.web.http:HTTPChannel.allContentReceived", "twisted.web.http:
            "twisted.protocols.basic:LineReceiver.dataReceived", "twisted.protocols.basic:LineReceiver.setLineMode"]
 BOUNDS = {"quick": {"n": 5}, "thorough": {"n": 7}}
 B = {}
-BOUNDS_TEXT = ("three pipelined requests (GET, POST with a 3-byte body, GET) cut into deliveries in three ways; "
+BOUNDS_TEXT = ("three pipelined requests (GET, POST with a 3-byte body, GET; none or any one of them a HEAD instead, "
+               "whose resource still writes a body and sets no Content-Length) cut into deliveries in three ways "
+               "(all three when there is no HEAD, one per HEAD position); "
                "every subset of requests finished synchronously inside process(); every schedule of length <= n "
                "(5 quick, 7 thorough) over {deliver next chunk, finish request 0/1/2, transport pause/resume "
                "toggle, connection lost}")
@@ -54,27 +58,66 @@ ASSUMPTIONS = ["the lifted classes agree with the real ones on the concrete vect
 EXPLANATION = ("real HTTPChannel + real http.Request under a solver-driven schedule of deliveries, finishes, "
                "pause/resume and connection loss, compared with a reference head-of-line-blocking model")
 
-R0 = "GET /0 HTTP/1.1\r\nHost: h\r\n\r\n"
-R1 = "POST /1 HTTP/1.1\r\nContent-Length: 3\r\n\r\nabc"
-R2 = "GET /2 HTTP/1.1\r\n\r\n"
 NREQ = 3
-# (chunks, number of complete requests after each chunk)
-CUTS = [
-    ([R0 + R1[:25], R1[25:] + R2[:5], R2[5:]], [1, 2, 3]),
-    ([R0 + R1 + R2[:5], R2[5:]], [2, 3]),
-    ([R0[:9], R0[9:] + R1 + R2], [0, 3]),
-]
-HEAD = "HTTP/1.1 200 OK\r\nTransfer-Encoding: chunked\r\n\r\n"
+_METHODS = ["GET", "POST", "GET"]
+_BODIES = ["", "abc", ""]
+
+
+def methods_of(head):
+    """the three request methods; request `head` (0..2) is a HEAD instead, 3 = none"""
+    return [("HEAD" if i == head else _METHODS[i]) for i in range(NREQ)]
+
+
+def cuts_of(head, cut):
+    """(chunks, number of complete requests after each chunk) for one way of cutting the stream"""
+    m = methods_of(head)
+    r0 = m[0] + " /0 HTTP/1.1\r\nHost: h\r\n\r\n"
+    r1 = m[1] + " /1 HTTP/1.1\r\nContent-Length: 3\r\n\r\nabc"
+    r2 = m[2] + " /2 HTTP/1.1\r\n\r\n"
+    if cut == 0:
+        return [r0 + r1[:25], r1[25:] + r2[:5], r2[5:]], [1, 2, 3]
+    if cut == 1:
+        return [r0 + r1 + r2[:5], r2[5:]], [2, 3]
+    return [r0[:9], r0[9:] + r1 + r2], [0, 3]
+
+
+STATUS = "HTTP/1.1 200 OK\r\n"
+HEAD = STATUS + "Transfer-Encoding: chunked\r\n\r\n"
+# a response to HEAD is status line + header section + blank line and nothing else (RFC 9110 9.3.2: the
+# header fields of the GET response, of which the framing fields may be omitted): both are accepted
+HEAD_ONLY = (STATUS + "\r\n", HEAD)
 
 OP_DELIVER, OP_FIN0, OP_FIN1, OP_FIN2, OP_TOGGLE, OP_LOST = 0, 1, 2, 3, 4, 5
 
 
-def _first_half(i):
-    return HEAD + "2\r\nA%d\r\n" % i
+def _first_half(i, method="GET"):
+    """what is on the wire once request i has been handed over (its resource has written 'A<i>')"""
+    if method == "HEAD":
+        return [HEAD_ONLY]
+    return [HEAD + "2\r\nA%d\r\n" % i]
 
 
-def _second_half(i):
-    return "2\r\nB%d\r\n0\r\n\r\n" % i
+def _second_half(i, method="GET"):
+    """... and what finish() adds after the resource has written 'B<i>'"""
+    if method == "HEAD":
+        return []
+    return ["2\r\nB%d\r\n0\r\n\r\n" % i]
+
+
+def wire_matches(wire, parts):
+    """the bytes on the wire are exactly the expected parts in order (a tuple = alternatives)"""
+    pos = 0
+    for p in parts:
+        alts = p if isinstance(p, tuple) else (p,)
+        hit = None
+        for a in alts:
+            if wire.startswith(a, pos):
+                hit = a
+                break
+        if hit is None:
+            return False
+        pos += len(hit)
+    return pos == len(wire)
 
 
 class ScriptedRequest(L.Request):
@@ -112,19 +155,18 @@ class ScriptedRequest(L.Request):
         self.finish()
 
 
-def reference_run(now, completes, ops):
+def reference_run(now, completes, ops, methods=_METHODS):
     """the specification: a server that hands over one request at a time, in order, the next only
     after the previous response is finished.  Returns (events, notifications, wire, valid): events are
     the hand-overs and finishes in order; notifications[i] is None / 'ok' / 'err', the one result the
-    notifyFinish Deferred of request i must have had by the end; valid says that every operation was
+    notifyFinish Deferred of request i must have had by the end; wire is the list of expected wire parts; valid says that every operation was
     applicable (otherwise the schedule is not a legal history)"""
     ev = []
     nf = [None] * NREQ
-    wire = ""
+    wire = []
     c = h = f = 0          # complete requests received / handed over / finished
     nchunk = 0
-    bodies = ["", "abc", ""]
-    methods = ["GET", "POST", "GET"]
+    bodies = _BODIES
     lost = False
     for op in ops:
         if lost:
@@ -146,16 +188,16 @@ def reference_run(now, completes, ops):
             if not (h == f + 1 and i == h - 1):
                 return ev, nf, wire, False
             ev.append(("fin", i))
-            wire += _second_half(i)
+            wire += _second_half(i, methods[i])
             nf[i] = "ok"
             f += 1
         while h < c and h == f:
             ev.append(("recv", h, methods[h], "/%d" % h, bodies[h]))
-            wire += _first_half(h)
+            wire += _first_half(h, methods[h])
             h += 1
             if now[h - 1]:
                 ev.append(("fin", h - 1))
-                wire += _second_half(h - 1)
+                wire += _second_half(h - 1, methods[h - 1])
                 nf[h - 1] = "ok"
                 f += 1
     return ev, nf, wire, True
@@ -228,14 +270,17 @@ def _expected_nf(nf):
     return out
 
 
-def pipeline(now: int, cut: int, sched: List[int]) -> bool:
+def pipeline(now: int, cut: int, head: int, sched: List[int]) -> bool:
     """
-    pre: 0 <= now < 8 and 0 <= cut < 3
+    pre: 0 <= now < 8 and 0 <= cut < 3 and 0 <= head <= 3
+    pre: head == 3 or cut == head
     pre: len(sched) <= B['n'] and all(0 <= op <= 5 for op in sched)
     post: _
     """
     cut = split_cases(2, cut)
-    chunks, completes = CUTS[cut]
+    head = split_cases(3, head)
+    chunks, completes = cuts_of(head, cut)
+    meths = methods_of(head)
     nowl = [bool(now & 1), bool(now & 2), bool(now & 4)]
     # ---- the real code under the schedule ---------------------------------------------------------
     ch = L.HTTPChannel()
@@ -278,7 +323,7 @@ def pipeline(now: int, cut: int, sched: List[int]) -> bool:
             ch.v_handed[i].v_finish()
     api.obs((ev, tr.value(), tr.closed))
     cover()
-    exp_ev, exp_nf, exp_wire, valid = reference_run(nowl, completes, ops)
+    exp_ev, exp_nf, exp_wire, valid = reference_run(nowl, completes, ops, meths)
     if not _invariants(ev):
         return False
     if not valid:
@@ -294,18 +339,21 @@ def pipeline(now: int, cut: int, sched: List[int]) -> bool:
                 if ds[x] is ds[y]:
                     return False                          # each notifyFinish() call returns its own Deferred
     got_ev, got_nf = _project(ev)
-    return got_ev == exp_ev and got_nf == _expected_nf(exp_nf) and tr.value() == exp_wire and not tr.closed
+    return got_ev == exp_ev and got_nf == _expected_nf(exp_nf) and wire_matches(tr.value(), exp_wire) and not tr.closed
 
 
 HARNESSES = [
-    H(pipeline, shards=[("now == %d" % m, "cut == %d" % c) for m in range(8) for c in range(3)],
+    H(pipeline, shards=[("now == %d" % m, "cut == %d" % c, "head == %d" % h) for m in range(8) for c in range(3)
+                        for h in range(4) if h == 3 or h == c],
       timeout={"quick": 240, "thorough": 1500}),
 ]
 
 VECTORS = {
-    "pipeline": [(7, 0, [0, 0, 0]), (0, 0, [0, 1, 0, 2, 0]), (0, 1, [0, 1, 2, 0, 3]), (2, 1, [0, 1, 0, 3]),
-                 (0, 0, [0, 0, 0, 5]), (0, 2, [0, 0, 5]), (5, 1, [4, 0]), (0, 1, [0, 4, 1, 4, 2]), (1, 0, [0, 0, 2, 5]),
-                 (0, 1, [0, 5]), (3, 2, [0, 4, 0, 3]), (0, 0, [0, 2]), (0, 0, [5, 0])],
+    "pipeline": [(7, 0, 3, [0, 0, 0]), (0, 0, 3, [0, 1, 0, 2, 0]), (0, 1, 3, [0, 1, 2, 0, 3]), (2, 1, 3, [0, 1, 0, 3]),
+                 (0, 0, 3, [0, 0, 0, 5]), (0, 2, 3, [0, 0, 5]), (5, 1, 3, [4, 0]), (0, 1, 3, [0, 4, 1, 4, 2]),
+                 (1, 0, 3, [0, 0, 2, 5]), (0, 1, 3, [0, 5]), (3, 2, 3, [0, 4, 0, 3]), (0, 0, 3, [0, 2]), (0, 0, 3, [5, 0]),
+                 (7, 0, 0, [0, 0, 0]), (0, 1, 1, [0, 1, 2, 0, 3]), (4, 2, 2, [0, 0, 1, 2]), (0, 0, 0, [0, 1, 0, 2]),
+                 (2, 1, 1, [0, 1, 0, 5]), (7, 1, 0, [0, 0]), (0, 1, 2, [0, 1, 2, 0, 3])],
 }
 
 
@@ -313,7 +361,12 @@ def selftest():
     ev, nf, wire, valid = reference_run([False, True, False], [2, 3], [0, 1, 0, 3])
     assert valid and [e[:2] for e in ev] == [("recv", 0), ("fin", 0), ("recv", 1), ("fin", 1), ("recv", 2), ("fin", 2)], ev
     assert nf == ["ok", "ok", "ok"]
-    assert wire == "".join(_first_half(i) + _second_half(i) for i in range(3))
+    full_wire = "".join("".join(_first_half(i) + _second_half(i)) for i in range(3))
+    assert wire_matches(full_wire, wire) and not wire_matches(full_wire + "0", wire) and not wire_matches(full_wire[:-1], wire)
+    hw = reference_run([True] * 3, [2, 3], [0, 0], ["GET", "HEAD", "GET"])[2]
+    g0, g2 = "".join(_first_half(0) + _second_half(0)), "".join(_first_half(2) + _second_half(2))
+    assert wire_matches(g0 + STATUS + "\r\n" + g2, hw) and wire_matches(g0 + HEAD + g2, hw)
+    assert not wire_matches(g0 + HEAD + "0\r\n\r\n" + g2, hw) and not wire_matches(g0 + STATUS + "\r\nA1" + g2, hw)
     assert reference_run([False] * 3, [1, 2, 3], [0, 2])[3] is False
     assert reference_run([False] * 3, [1, 2, 3], [0, 0, 5])[1] == ["err", None, None]
     full = [("recv", 0), ("fin", 0), ("recv", 1), ("nf-ok", 0, True, 0), ("nf-ok", 0, True, 1), ("fin", 1), ("nf-ok", 1, True, 2)]
